@@ -1121,10 +1121,34 @@ def gen_cases(ctx):
     return cases
 
 
+_EXECUTED = []      # every case judged by this interpreter, in order: the call history of a failing case (see geo_history.py)
+
+
 def judge(case):
+    c = {k: v for k, v in case.items() if k not in ("stream", "history", "rows")}
+    if str(c.get("kind", "")).startswith("batched_"):
+        c["kind"] = "batched"
+    _EXECUTED.append(c)
     orc, trm = ORACLES[case["kind"]]
     fails, obs = orc(case)
     return fails, trm(case, obs), obs
+
+
+def is_known(f):
+    return any(m(f) for m in KNOWN.values())
+
+
+def run_history(steps):
+    """histseq interface: the cases one after the other in this interpreter; the oracle's complaints about the LAST one"""
+    import warnings
+    warnings.filterwarnings("ignore")
+    fails = []
+    for c in steps:
+        c = dict(c)
+        if str(c.get("kind", "")).startswith("batched_"):
+            c["kind"] = "batched"
+        fails, _, _ = judge(c)
+    return [f["what"] for f in fails]
 
 
 def correspond(ctx):
@@ -1171,9 +1195,12 @@ def correspond(ctx):
                 ck["kind"] = "batched_" + case["fn"]
                 ck["rows"] = max(len(c) for c in case["cols"])
             corr.failures.append({"stream": "oracle-" + case["kind"] + ("-" + case["fn"] if "fn" in case else ""), "case": ck,
-                                  "what": f["what"], "observed": f["observed"]})
+                                  "what": f["what"], "observed": f["observed"], "_pos": len(_EXECUTED) - 1})
         for chk, term in terms.items():
             buckets[chk].append((term, case))
+    # every stream's first failure must replay from its recorded input alone (with the earlier calls it depends on, if any)
+    from . import geo_history
+    corr.failures = geo_history.attach("c18", corr.failures, _EXECUTED, is_known, log=ctx.log)
     corr.sample({"case": cases[0]})
     ctx.log(f"{len(cases)} cases through the implementation; evaluating the models: "
             + ", ".join(f"{k}={len(v)}" for k, v in buckets.items()))
@@ -1207,7 +1234,7 @@ def search(ctx, corr, reasons):
         except Exception:
             continue
         for f in fails:
-            found.append({"stream": "search", "case": case, "what": f["what"], "observed": f["observed"]})
+            found.append({"stream": "search", "case": case, "what": f["what"], "observed": f["observed"], "_pos": len(_EXECUTED) - 1})
     if not found:
         class C2:
             pass
@@ -1223,14 +1250,18 @@ def search(ctx, corr, reasons):
                 if case["kind"] == "batched":
                     ck["kind"] = "batched_" + case["fn"]
                     ck["rows"] = max(len(c) for c in case["cols"])
-                found.append({"stream": "search-" + case["kind"], "case": ck, "what": f["what"], "observed": f["observed"]})
-    return found
+                found.append({"stream": "search-" + case["kind"], "case": ck, "what": f["what"], "observed": f["observed"], "_pos": len(_EXECUTED) - 1})
+    from . import geo_history
+    return geo_history.attach("c18", found, _EXECUTED, is_known, log=getattr(ctx, "log", None))
 
 
 def replay(ctx, rp):
     case = dict(rp["case"])
     if case.get("kind", "").startswith("batched_"):
         case["kind"] = "batched"
+    if case.get("history"):
+        from . import geo_history
+        return geo_history.replay_history("c18", case)
     fails, _, obs = judge(case)
     return {"case": case, "failures": fails, "fails": bool(fails)}
 
